@@ -6,6 +6,7 @@
 //! See `names.rs` for the safety guard that keeps every generated name inside the sandbox.
 
 mod case;
+mod confine;
 mod names;
 mod sandbox;
 mod strat;
@@ -228,7 +229,23 @@ fn main() {
     }
     let scratch = engine::scratch("c11");
     let scratch_path = scratch.path().canonicalize().expect("scratch path");
+    // the child must be confined by the kernel before anything hostile is run
+    let landlock_abi = match confine::abi() {
+        Ok(v) if v >= 1 => v,
+        other => {
+            check.inconclusive(&format!("Landlock is not available ({other:?}): the child cannot be confined to its sandbox, refusing to run hostile names"));
+            let _ = scratch.close();
+            check.finish();
+        }
+    };
+    if let Err(e) = confine::self_test(&scratch_path, landlock_abi) {
+        check.inconclusive(&format!("Landlock self-test failed ({e}): refusing to run hostile names"));
+        let _ = scratch.close();
+        check.finish();
+    }
+    check.assume("the child is confined with Landlock (write-type access only beneath its sandbox root); an EACCES reported by the child is therefore an attempted write outside the sandbox and judged a violation");
     let ctx = Ctx {
+        landlock_abi,
         cli,
         scratch: scratch_path,
         counter: AtomicU64::new(0),
